@@ -286,6 +286,7 @@ type Actor struct {
 	crashOp   string
 	crashFn   func(c Call) bool
 	crashFnN  int
+	onCall    func(c Call)
 	budget    int
 	over      bool
 	fault     Fault
@@ -322,6 +323,10 @@ func (a *Actor) CrashWhen(f func(c Call) bool, n int, after bool) *Actor {
 	a.mu.Unlock()
 	return a
 }
+
+// OnCall installs a function run at the beginning of every store call of the actor, outside any lock;
+// it may block (driver-controlled pre-emption point).
+func (a *Actor) OnCall(f func(c Call)) *Actor { a.mu.Lock(); a.onCall = f; a.mu.Unlock(); return a }
 
 // SetBudget bounds the number of store calls; beyond it every call fails.
 func (a *Actor) SetBudget(n int) *Actor { a.mu.Lock(); a.budget = n; a.mu.Unlock(); return a }
@@ -435,8 +440,12 @@ func (a *Actor) enter(store, op, key string, mutating bool) (verdict, error) {
 		a.gateFn, a.gateFnG = nil, nil
 	}
 	delay := a.delay
+	onCall := a.onCall
 	a.mu.Unlock()
 
+	if onCall != nil {
+		onCall(c) // may block: a general pre-emption point controlled by the driver
+	}
 	if g != nil {
 		g.call = c
 		close(g.parked)
